@@ -17,6 +17,11 @@ VARIANTS = {
                 '-fno-sanitize-recover=all -fno-omit-frame-pointer -UNDEBUG -D' + GUARD),
     # plain optimisation but hooks ON and assertions enabled (fast white-box drivers)
     'hook': dict(btype='None', cflags='-Wno-error -O2 -g -UNDEBUG -D' + GUARD),
+    # as 'hook', with every pthread synchronisation call of mythread.h routed through harness/sched_perturb.c
+    'mt': dict(btype='None', cflags='-Wno-error -O2 -g -UNDEBUG -D' + GUARD +
+               ' -Dpthread_mutex_lock=verif_mutex_lock -Dpthread_mutex_unlock=verif_mutex_unlock'
+               ' -Dpthread_cond_wait=verif_cond_wait -Dpthread_cond_timedwait=verif_cond_timedwait'
+               ' -Dpthread_cond_signal=verif_cond_signal', tools_off=True),
 }
 
 class Lock:
@@ -47,7 +52,8 @@ def build(variant):
                      '-DCMAKE_BUILD_TYPE=' + v['btype'],
                      '-DCMAKE_EXPORT_COMPILE_COMMANDS=ON',
                      '-DCMAKE_C_FLAGS=' + v['cflags'],
-                     '-DXZ_NLS=OFF', '-DXZ_DOC=OFF', '-DBUILD_TESTING=OFF', '-DXZ_SANDBOX=no'])
+                     '-DXZ_NLS=OFF', '-DXZ_DOC=OFF', '-DBUILD_TESTING=OFF', '-DXZ_SANDBOX=no'] +
+                    (['-DXZ_TOOL_XZ=OFF', '-DXZ_TOOL_XZDEC=OFF', '-DXZ_TOOL_LZMADEC=OFF', '-DXZ_TOOL_LZMAINFO=OFF', '-DXZ_TOOL_SCRIPTS=OFF'] if v.get('tools_off') else []))
             if r.returncode != 0:
                 raise BuildError('cmake configure failed:\n' + r.stdout[-3000:])
         r = run(['cmake', '--build', bdir, '-j', str(NCPU)], timeout=1200)
@@ -91,6 +97,12 @@ def compile_driver(variant, src, out_name, whitebox_of='src/liblzma/common/index
     cmd = ['cc'] + flags + ['-w', '-I' + os.path.join(VERIF, 'harness')] + list(extra) + [srcp, '-o', out]
     if link_lib:
         cmd += [os.path.join(bdir, 'liblzma.a')]
+    if variant == 'mt':
+        pobj = os.path.join(odir, 'sched_perturb.o')
+        r0 = run(['cc', '-O1', '-c', os.path.join(VERIF, 'harness', 'sched_perturb.c'), '-o', pobj])
+        if r0.returncode != 0:
+            raise BuildError('sched_perturb compile failed: ' + r0.stdout[-2000:])
+        cmd += [pobj]
     cmd += ['-lpthread']
     with Lock('drv-' + variant + '-' + out_name):
         r = run(cmd, timeout=600)
